@@ -1,3 +1,124 @@
 package main
 
-func selftest(args []string) int { return 0 }
+import (
+	"encoding/json"
+	"flag"
+	"fmt"
+	"os"
+	"os/exec"
+	"path/filepath"
+	"sort"
+	"strings"
+	"sync"
+)
+
+type mutantSpec struct {
+	File     string `json:"file"`
+	Old      string `json:"old"`
+	New      string `json:"new"`
+	Property string `json:"property"`
+	Rule     string `json:"rule"`   // substring expected in a violation line
+	Expect   string `json:"expect"` // "violation" (default) or "silent" (behaviour-preserving edit)
+	Note     string `json:"note"`
+}
+
+// selftest replays the mutant corpus: each single-site edit of /repo (applied
+// in memory through an overlay) must make the named property's check fail with
+// a violation of the named rule; "silent" mutants are behaviour-preserving
+// edits that must not raise an alarm. This validates the checker; it is not
+// what decides the properties.
+func selftest(args []string) int {
+	fs := flag.NewFlagSet("selftest", flag.ExitOnError)
+	dir := fs.String("dir", "/verif/mutants", "mutant corpus")
+	only := fs.String("property", "", "restrict to one property")
+	jobs := fs.Int("j", 6, "parallel checks")
+	verbose := fs.Bool("v", false, "print outputs of failing mutants")
+	fs.Parse(args)
+	files, _ := filepath.Glob(filepath.Join(*dir, "*", "*.json"))
+	sort.Strings(files)
+	self, err := os.Executable()
+	if err != nil {
+		fmt.Println(err)
+		return 2
+	}
+	type res struct {
+		file string
+		ok   bool
+		msg  string
+		out  string
+	}
+	var mu sync.Mutex
+	var results []res
+	sem := make(chan struct{}, *jobs)
+	var wg sync.WaitGroup
+	for _, f := range files {
+		b, err := os.ReadFile(f)
+		if err != nil {
+			fmt.Println(err)
+			return 2
+		}
+		var m mutantSpec
+		if err := json.Unmarshal(b, &m); err != nil {
+			fmt.Printf("%s: %v\n", f, err)
+			return 2
+		}
+		if *only != "" && m.Property != *only {
+			continue
+		}
+		wg.Add(1)
+		go func(f string, m mutantSpec) {
+			defer wg.Done()
+			sem <- struct{}{}
+			defer func() { <-sem }()
+			cmd := exec.Command(self, "check", "--property", m.Property, "--mutant", f, "--no-evidence")
+			out, _ := cmd.CombinedOutput()
+			code := cmd.ProcessState.ExitCode()
+			r := res{file: f, out: string(out)}
+			want := m.Expect
+			if want == "" {
+				want = "violation"
+			}
+			switch want {
+			case "violation":
+				hit := false
+				for _, l := range strings.Split(string(out), "\n") {
+					if strings.Contains(l, "rule="+m.Rule) || (m.Rule == "" && strings.HasPrefix(l, "VIOLATION")) {
+						hit = true
+					}
+				}
+				r.ok = code == 1 && hit
+				if !r.ok {
+					r.msg = fmt.Sprintf("expected a violation of %s, got exit %d", m.Rule, code)
+				}
+			case "silent":
+				r.ok = code == 0
+				if !r.ok {
+					r.msg = fmt.Sprintf("behaviour-preserving edit raised an alarm (exit %d)", code)
+				}
+			}
+			mu.Lock()
+			results = append(results, r)
+			mu.Unlock()
+		}(f, m)
+	}
+	wg.Wait()
+	sort.Slice(results, func(i, j int) bool { return results[i].file < results[j].file })
+	bad := 0
+	for _, r := range results {
+		st := "ok  "
+		if !r.ok {
+			st = "FAIL"
+			bad++
+		}
+		rel, _ := filepath.Rel(*dir, r.file)
+		fmt.Printf("%s %s %s\n", st, rel, r.msg)
+		if !r.ok && *verbose {
+			fmt.Println(r.out)
+		}
+	}
+	fmt.Printf("selftest: %d mutants, %d failed\n", len(results), bad)
+	if bad > 0 {
+		return 1
+	}
+	return 0
+}
